@@ -296,6 +296,40 @@ def _paste_slice_form(ctx, rid, f, pb, pf, ov, lb):
     return True
 
 
+def r157(ctx):
+    """The default length limit of paste_paths is a function of the two segments' limits: when no
+    `maxlen` is passed the limit is `path_back.maxlen` / `path_forw.maxlen` (their common value or
+    the larger one) - never a current length. A limit taken from `.length` cuts the pasted path
+    at the length of one segment and drops the tail of the other."""
+    rid = "R-15.7"
+    f = ctx.tree.func(PATH, "paste_paths")
+    params = [a.arg for a in f.args.args]
+    pb, pf = params[0], params[1]
+    lim = next((p_ for p_ in params if "maxlen" in p_), None)
+    if lim is None:
+        raise AnalysisError("R-15.7: paste_paths has no maxlen parameter")
+    stores = [st for st in walk_local(f) if isinstance(st, ast.Assign) and any(isinstance(t, ast.Name) and t.id == lim for t in st.targets)]
+    if not stores:
+        raise AnalysisError("R-15.7: paste_paths never sets a default for maxlen (cannot decide)")
+    fl = flow_of(f)
+    for st in stores:
+        v = st.value
+        if isinstance(v, ast.Name):
+            v, _ = deref(fl, v, fl.cfg.node_of(st))
+        attrs = [(x.value.id, x.attr) for x in ast.walk(v) if isinstance(x, ast.Attribute) and isinstance(x.value, ast.Name) and x.value.id in (pb, pf)]
+        wrong = [a for a in attrs if a[1] != "maxlen"]
+        if wrong:
+            ctx.bad(rid, st, f"paste_paths takes its default limit from `{wrong[0][0]}.{wrong[0][1]}` (`{short(st, 60)}`): a current length is not a limit - with unequal limits the pasted path is cut at max(limit of one segment, length of the other) and the tail of the forward segment is dropped silently", construct=f"paste_paths default limit from .{wrong[0][1]}")
+        elif isinstance(v, ast.Call) and last_name(v) == "max" and sorted(attrs) != sorted([(pb, "maxlen"), (pf, "maxlen")]):
+            ctx.bad(rid, st, f"the default limit `{short(st, 60)}` is not the larger of the two segments' limits", construct="paste_paths default limit")
+        elif isinstance(v, ast.Call) and last_name(v) == "min":
+            ctx.bad(rid, st, f"the default limit `{short(st, 60)}` is the smaller of the two limits: a paste within the larger limit is truncated", construct="paste_paths default limit min()")
+        elif not attrs:
+            ctx.bad(rid, st, f"the default limit `{short(st, 60)}` does not derive from the segments' limits", construct="paste_paths default limit")
+        else:
+            ctx.ok(rid, st, f"default limit `{short(st.value, 40)}` derives from the segments' limits only")
+
+
 def r153(ctx):
     """paste_paths: backward segment reversed, then the forward segment minus exactly one shared
     point iff `overlap`; every visited frame is appended; Path.append refuses at the limit."""
@@ -622,6 +656,8 @@ def run(ctx):
     ctx.attempt(r151, ctx)
     ctx.attempt(r152, ctx)
     ctx.attempt(r153, ctx)
+    ctx.rule("R-15.7", "pasting up to the length limit: the default limit of paste_paths derives from the two segments' limits (.maxlen), never from a current length", floor=2)
+    ctx.attempt(r157, ctx)
     ctx.attempt(r154, ctx)
     ctx.rule("R-15.5", "the extreme values used by the classification are those of the current frames: recomputed on every call, or memoised with invalidation at every site that changes a frame list", floor=2)
     ctx.attempt(r155, ctx)
@@ -630,6 +666,9 @@ def run(ctx):
 
 
 VARIANTS = [
+    B("c15-default-limit-from-forward-length", PATH, "            maxlen = max(path_back.maxlen, path_forw.maxlen)", "            maxlen = max(path_back.maxlen, path_forw.length)", "R-15.7", control=True, why="seeded C15_l"),
+    B("c15-default-limit-smaller-of-two", PATH, "            maxlen = max(path_back.maxlen, path_forw.maxlen)", "            maxlen = min(path_back.maxlen, path_forw.maxlen)", "R-15.7"),
+    K("c15-keep-default-limit-sorted", PATH, "            maxlen = max(path_back.maxlen, path_forw.maxlen)", "            maxlen = max(path_forw.maxlen, path_back.maxlen)"),
     B("c15-paste-reverses-backward-segment-in-place", PATH, "    for phasepoint in reversed(path_back.phasepoints):", "    frames_back = path_back.phasepoints\n    frames_back.reverse()\n    for phasepoint in frames_back:", "R-15.3", control=True, why="seeded C15_k"),
     K("c15-keep-paste-reversed-copy-local", PATH, "    for phasepoint in reversed(path_back.phasepoints):", "    frames_back = list(reversed(path_back.phasepoints))\n    for phasepoint in frames_back:"),
     B("c15-flip-after-early-return", PATH, "            new_point = phasepoint.copy()\n            if rev_v:\n                self.reverse_velocities(new_point)\n            new_path.append(new_point)\n        if order_function is None:\n            return new_path\n", "            new_path.append(phasepoint.copy())\n        if order_function is None:\n            return new_path\n        if rev_v:\n            for new_point in new_path.phasepoints:\n                self.reverse_velocities(new_point)\n", "R-15.1", why="seeded C15_i"),
